@@ -365,7 +365,7 @@ ROLE_FAULTS = ["readonly", "int8", "uint8", "bool", "bigint", "overlap", "noncon
                "dim_mismatch", "other_registry", "intdtype", "view", "guarded_unit"]
 PARAM_FAULTS = {"u": ["unknown_unit", "absent_symbol", "dim_mismatch_u", "garbage_u"],
                 "sys": ["irreducible", "unknown_sys"],
-                "equiv": ["bad_equiv_name", "equiv_not_covering", "surplus_kw"],
+                "equiv": ["bad_equiv_name", "equiv_not_covering", "surplus_kw", "bad_kw_value"],
                 "e": ["fractional_exp", "zero_exp", "str_exp"],
                 "c": [], "idx": ["idx_out_of_range"]}
 ENV_FAULTS = ["warn_error"]
@@ -419,6 +419,14 @@ class Gen18:
         self.cfg = cfg
         self.cells = grid()
         self.ncalls = 0
+
+    def cells_by_cat(self):
+        if not hasattr(self, "_by_cat"):
+            self._by_cat = {}
+            T = templates()
+            for c in self.cells:
+                self._by_cat.setdefault(T[c[0]].cat, []).append(c)
+        return self._by_cat
 
     def mk(self, unit, dtype="float64", shape=(3,), reg="D", ro=False, q=False, positive=False, big=False, vals=None):
         n = 1
@@ -597,6 +605,16 @@ class Gen18:
                 p["equiv"] = "thermal" if p.get("equiv") != "thermal" else "mass_energy"
                 if r.random() < 0.5:
                     p["u"] = self.pick_unit(avoid_dim=xdim)
+            elif kind == "bad_kw_value":
+                # a keyword the equivalence does take, with a value it cannot compute with: the failure comes
+                # from inside the conversion chain, not from argument binding
+                eq = r.choice([("K", "km/s", "sound_speed"), ("cm/s", "K", "sound_speed"), ("cm/s", "keV", "sound_speed"),
+                               ("keV", "km/s", "sound_speed"), ("g/cm**3", "cm**-3", "number_density"),
+                               ("cm**-3", "g/cm**3", "number_density")])
+                for s_ in spec.values():
+                    s_["unit"] = eq[0]
+                p["u"], p["equiv"] = eq[1], eq[2]
+                p["kw"] = {r.choice(["mu", "gamma"] if eq[2] == "sound_speed" else ["mu"]): r.choice([None, "heavy", [1, 2]])}
             else:
                 p["kw"] = {"bogus": 1.0}
         elif site == "e":
@@ -1007,7 +1025,14 @@ def simulate(chan, spec):
             if c == 0:
                 cell = cells[first]
             elif rng.random() < cfg["p_fault"]:
-                cell = cells[rng.randrange(len(cells))]
+                if rng.random() < 0.5:
+                    cell = cells[rng.randrange(len(cells))]
+                else:
+                    # the ufunc templates are nine tenths of the grid: pick the category first, so that the
+                    # conversion / equivalence / array-function cells are revisited with many payloads
+                    by_cat = gen.cells_by_cat()
+                    cat = sorted(by_cat)[rng.randrange(len(by_cat))]
+                    cell = by_cat[cat][rng.randrange(len(by_cat[cat]))]
             else:
                 name = sorted(templates())[rng.randrange(len(templates()))]
                 cell = (name, "-", "none")
